@@ -1,5 +1,6 @@
 import RepeVerif.Lemmas.Router
 import RepeVerif.Gen.Router
+import RepeVerif.Props.C03
 /-!
 # C07 — All dispatch paths and route shapes give the same answer for the same request
 
@@ -22,6 +23,7 @@ clause → theorem
 * the mounted handler strips only the prefix ............................. `C07.pointer_for_strips_only_prefix`, `C07.relative_pointer_strips_only_prefix`
 * struct segments = RFC 6901 tokens, any depth (stack and spill branch) .. `C07.segments_rfc6901`, `C07.struct_segments`
 * `replace("~1","/").replace("~0","~")` = unescape on well-formed tokens . `C07.replace_is_unescape` (`~01` regression: `C07.tilde01`)
+* composition with C03 (`found` of `route`/`respond` = this `Router.get`) .. `C07.found_iff_registered`, `C07.served_through_router`
 
 Not proved (differential only): that `serde_json::from_slice` / `beve::from_slice` /
 `beve::read_typed_slice` return the same value for the same bytes when called from the owned and
@@ -271,6 +273,70 @@ theorem relative_pointer_strips_only_prefix (p path : Str) :
 
 example : pointerFor "/api".toList "/api/x/y".toList = some "/x/y".toList ∧
     relativePointer "/api".toList "/api".toList = some [] ∧ pointerFor "/api".toList "/apix".toList = none := by decide
+
+/-! ## composition with C03: the dispatch layer instantiated with this router
+
+C03's `route` / `respond` (`Model/Dispatch.lean`) take `found` – "`router.get(path)` is `Some`" – as
+a parameter. Here it is computed by this model's `Router.get` on the router built by ANY
+registration history, and C03's theorems are used as they stand. -/
+
+/-- `router.get(path).is_some()` for the router built by `ops`. -/
+def routerFound (ops : List Op) (path : Str) : Bool :=
+  ((Router.run Gen.routerFacts {} ops).get Gen.routerFacts path).isSome
+
+/-- `found` as a function of the history: some registration covers the path – an exact route at it,
+or a registry / struct mount whose normalised prefix matches at a '/' boundary. Later registrations
+(middleware included) never un-serve a path. -/
+theorem found_iff_registered (ops : List Op) (path : Str) :
+    routerFound ops path = ops.any (Op.covers path) := by
+  unfold routerFound
+  rw [get_isSome_eq_covers _ source_forms.1, run_covers]
+  simp [Router.covers]
+
+/-- C03 ∘ C07: for a request in the current version whose query is a UTF-8 JSON pointer `path`,
+served on any transport by the router built by any history `ops`:
+* if some registration covers `path`, the request is dispatched, the handler that runs is the one
+  `Router.get` resolves, wrapped in every middleware of the history, it is invoked exactly once, and a
+  non-notify request gets exactly one response;
+* otherwise the handler count is 0 and a non-notify request is answered MethodNotFound (6) with the
+  request's id and query. -/
+theorem served_through_router (ops : List Op) (path : Str) (t : Transport) (req : Req) (hview howned : HOut)
+    (rejMsg : Bytes) (hv : req.header.version = 1) (hq : req.header.queryFormat = 1) :
+    let found := routerFound ops path
+    (ops.any (Op.covers path) = true →
+      (∃ f, (Router.run Gen.routerFacts {} ops).get Gen.routerFacts path = some f ∧ f.entry.mws = mwsOf ops) ∧
+      route Gen.codes req true found = .dispatch ∧
+      (respond Gen.codes t req true found hview howned rejMsg).2 = 1 ∧
+      (req.isNotify = false → ∃ m, (respond Gen.codes t req true found hview howned rejMsg).1 = some m) ∧
+      (req.isNotify = true → (respond Gen.codes t req true found hview howned rejMsg).1 = none)) ∧
+    (ops.any (Op.covers path) = false →
+      route Gen.codes req true found = .reject 6 ∧
+      (respond Gen.codes t req true found hview howned rejMsg).2 = 0 ∧
+      (req.isNotify = false → ∃ m, (respond Gen.codes t req true found hview howned rejMsg).1 = some m ∧
+        m.header.ec = 6 ∧ m.header.id = req.header.id ∧ m.query = req.query)) := by
+  intro found
+  have hfound : found = ops.any (Op.covers path) := found_iff_registered ops path
+  have hroute := C03.reject_codes req true found
+  simp only [hv, hq, ne_eq, not_true_eq_false, if_false, Bool.true_eq_false] at hroute
+  constructor
+  · intro hc
+    have hf : found = true := hfound.trans hc
+    have hr : route Gen.codes req true found = .dispatch := by rw [hroute]; simp [hf]
+    refine ⟨?_, hr, ?_, fun hn => C03.one_response t req true found hview howned rejMsg hn,
+            fun hn => C03.no_response_for_notify t req true found hview howned rejMsg hn⟩
+    · have : ((Router.run Gen.routerFacts {} ops).get Gen.routerFacts path).isSome = true := hf
+      obtain ⟨f, hget⟩ := Option.isSome_iff_exists.mp this
+      exact ⟨f, hget, get_runs_all_middleware ops path f hget⟩
+    · rw [C03.handler_once, hr]; rfl
+  · intro hc
+    have hf : found = false := hfound.trans hc
+    have hr : route Gen.codes req true found = .reject 6 := by rw [hroute]; simp [hf]
+    exact ⟨hr, C03.reject_never_invokes t req true found hview howned rejMsg 6 hr,
+           fun hn => C03.reject_response t req true found hview howned rejMsg 6 hr hn⟩
+
+example : routerFound [.middleware 1, .struct "/svc".toList 2, .registry "api/".toList 3] "/api/x".toList = true ∧
+    routerFound [.middleware 1, .struct "/svc".toList 2, .registry "api/".toList 3] "/apix".toList = false ∧
+    routerFound [.route "/svc2".toList 4] "/svc2".toList = true := by decide
 
 /-! ## segments = RFC 6901 reference tokens, for paths of any depth -/
 
